@@ -4,8 +4,10 @@
    factorisations give an exact dense product, per-block isometries give isometries in reduced mode, not with
    full_matrices and a missing block (T05_block_reconstruct, T05_block_product, T05_block_isometry_U/_V,
    T05_svd_full_refuted, T05_svd_inner_sizes); eigenpairs A V = V diag(w) of the assembled eigh / eig result
-   (T05_eig_pairs); the block product of qr / lq factors (T05_matched_product, T05_qr_block_reconstruct); the phase bookkeeping of qr(pos_diag_R=True) for real blocks
-   (T05_qr_pos_diag).  Only statements; proofs are `exact <lemma of Proofs/Factor*P*.v>`.
+   (T05_eig_pairs); the block product of qr / lq factors (T05_matched_product, T05_qr_block_reconstruct); isometry of the
+   assembled Q of qr in reduced and complete mode (T05_qr_isometry_assembled, T05_qr_complete_isometry) and unitarity of the
+   full_matrices factors when every sector is stored (T05_svd_full_unitary); the phase bookkeeping of qr(pos_diag_R=True) for
+   real blocks (T05_qr_pos_diag).  Only statements; proofs are `exact <lemma of Proofs/Factor*P*.v>`.
    LAPACK itself is NOT modelled: its results are universally quantified inputs with their specification as
    hypotheses.  The remaining numeric clauses of C05 (triangular R from numpy, A v = w v, Moore-Penrose, expm, polar,
    orthogonal_columns, speigs, complex entries) are NOT proved; they are checked by the dense oracle of harness/c05.py.
@@ -17,7 +19,9 @@
    recorded integer-valued matrices (any kept rank, zeros on the R diagonal included) - the models are parametric in
    exactly these per-block results, so the comparison is exact (check_eig_case: resv._qdata/_data and resw;
    check_posdiag_case: the stored q / r blocks or NaN; check_svd_dense_case: U / VH _qdata and blocks, S, block sizes of
-   VH.legs[0]).  Model/FactorDense2.v (eig_A / eig_V, pairs_L / pairs_R) is proof vocabulary built on these definitions. *)
+   VH.legs[0]).  Model/FactorDense3.v (qr_complete_Q: identity fill-in of mode='complete'; svd_V_full) is run against
+   npc.qr / npc.svd by Model/FactorCase3.v in the same stream (check_qr_fill_case, check_svd_vfull_case).
+   Model/FactorDense2.v (eig_A / eig_V, pairs_L / pairs_R) is proof vocabulary built on these definitions. *)
 From TenpyV Require Import Base.Prelude Model.ChargeL Model.Leg Model.Factor Proofs.LegP Proofs.FactorP
   Model.Factor2 Model.FactorDense Model.FactorDense2 Proofs.FactorP2 Proofs.FactorDenseP Proofs.FactorDenseP2
   Model.FactorDense3 Proofs.FactorDenseP3.
@@ -385,8 +389,8 @@ Example T05_svd_full_example :
      sumn (bsize [1; 2]%nat (sb_col e)) (fun y => f_V (sb_fac e) y a * f_V (sb_fac e) y b) = delta a b).
 Proof.
   split; [repeat constructor; cbn; intuition lia|]. split; [repeat constructor; cbn; intuition lia|].
-  split; [intros q Hq _; cbn in Hq; destruct q as [|[|q]]; [right; left; reflexivity|left; reflexivity|lia]|].
   split; [intros q Hq _; cbn in Hq; destruct q as [|[|q]]; [left; reflexivity|right; left; reflexivity|lia]|].
+  split; [intros q Hq _; cbn in Hq; destruct q as [|[|q]]; [right; left; reflexivity|left; reflexivity|lia]|].
   split; intros e [<-|[<-|[]]] a b Ha Hb; cbn in Ha, Hb; destruct a as [|[|a]], b as [|[|b]]; try lia; split; reflexivity.
 Qed.
 
